@@ -4,6 +4,7 @@
 -/
 import SV.Persist.Proofs
 import SV.FactsProofs.Batch
+import SV.Persist.ShardedProofs
 namespace SV.Props.C09
 open SV SV.Persist
 
@@ -23,5 +24,19 @@ theorem batch_operations_have_the_models_effects :
     Facts.batchPutEffects = Facts.modelPutEffects ∧ Facts.batchDeleteEffects = Facts.modelDeleteEffects ∧
     Facts.batchResetEffects = Facts.modelResetEffects :=
   ⟨Facts.batch_put_effects, Facts.batch_delete_effects, Facts.batch_reset_effects⟩
+
+/-- the SHARDED persister over batching persisters is one plain map over whole histories — any shard count ≥ 2, any batch
+    size, timer flushes of all shards and close/reopen cycles anywhere -/
+theorem sharded_history_refines_map (n maxBatch : Nat) (hn : 2 ≤ n) (hm : 1 ≤ maxBatch) (ops : List Op) (k : Bytes) :
+    (ops.foldl Sharded.step (Sharded.init n maxBatch)).get Variant.current k = (ops.foldl specStep (fun _ => none)) k :=
+  sharded_run_refines_map n maxBatch hn hm ops k
+/-- Close + reopen of all shards loses nothing and resurrects nothing; after it RangeKeys visits exactly the logical map, each
+    key exactly once across ALL shards (routing invariant) -/
+theorem sharded_reopen_preserves_map (s : Sharded) (k : Bytes) (h : SInv s) :
+    (s.reopen).get Variant.current k = s.get Variant.current k := sharded_reopen_preserves s k h
+theorem sharded_range_after_reopen (n maxBatch : Nat) (hn : 2 ≤ n) (hm : 1 ≤ maxBatch) (ops : List Op) :
+    (((ops ++ [Op.reopen]).foldl Sharded.step (Sharded.init n maxBatch)).range.map (·.1)).Nodup ∧
+    ∀ k, alookup k ((ops ++ [Op.reopen]).foldl Sharded.step (Sharded.init n maxBatch)).range
+      = (ops.foldl specStep (fun _ => none)) k := sharded_run_range_reopen n maxBatch hn hm ops
 
 end SV.Props.C09
